@@ -3821,6 +3821,15 @@ impl<'a> Parser<'a> {
             }
         };
 
+        // Generic tagged template: tag<T>`...` - the type arguments are erased and the
+        // caller goes on to parse the template
+        if matches!(
+            self.current.kind,
+            TokenKind::TemplateHead(_) | TokenKind::TemplateNoSub(_)
+        ) {
+            return Ok(Some(callee));
+        }
+
         // Must be followed by ( for a call
         if !self.check(&TokenKind::LParen) {
             // Not a call, restore and return None
